@@ -204,6 +204,115 @@ def gen_Const():
     write("Const", body, "magpylib package source (AST scan) and magpylib.mu_0")
 
 
+def _literal_kwargs(call):
+    """constant keyword arguments of a call; `range(a, b)` of literals counts as the list it denotes"""
+    import ast
+
+    kw = {}
+    for k in call.keywords:
+        try:
+            kw[k.arg] = ast.literal_eval(k.value)
+        except Exception:
+            v = k.value
+            if isinstance(v, ast.Call) and isinstance(v.func, ast.Name) and v.func.id == "range" and not v.keywords:
+                try:
+                    kw[k.arg] = list(range(*[ast.literal_eval(a) for a in v.args]))
+                except Exception:
+                    pass
+    return kw
+
+
+def _attr_row(cls, attr, func, kw):
+    dims = kw.get("dims")
+    dims = list(dims) if isinstance(dims, (tuple, list)) else []
+    sm1 = kw.get("shape_m1", 0)
+    return (cls, attr, func, dims, -1 if sm1 == "any" else int(sm1 or 0), int(kw.get("length") or 0),
+            bool(kw.get("allow_None", False)), bool(kw.get("forbid_negative", False)), bool(kw.get("forbid_negative0", False)),
+            bool(kw.get("reshape", False)))
+
+
+def _input_checks_facts():
+    """facts read from magpylib/_src/input_checks.py and class_Sensor.py (AST) that the hand-written validator model rests on"""
+    import ast
+
+    tree = ast.parse(open(os.path.join(REPO, "magpylib", "_src", "input_checks.py")).read())
+    fns = {n.name: n for n in tree.body if isinstance(n, ast.FunctionDef)}
+    inner = []
+    for name in ("check_format_input_anchor", "check_format_input_axis", "check_format_input_angle",
+                 "check_format_input_vertices", "check_format_input_cylinder_segment"):
+        call = next((n for n in ast.walk(fns[name]) if isinstance(n, ast.Call) and isinstance(n.func, ast.Name)
+                     and n.func.id == "check_format_input_vector"), None)
+        if call is None:
+            raise Refusal(f"{name} no longer calls check_format_input_vector")
+        inner.append(_attr_row("input_checks", name, "check_format_input_vector", _literal_kwargs(call)))
+    # the geometric conditions of check_format_input_cylinder_segment, as source text
+    seg = fns["check_format_input_cylinder_segment"]
+    conds = []
+    for n in seg.body:
+        if isinstance(n, ast.Assign) and len(n.targets) == 1:
+            t = n.targets[0]
+            if isinstance(t, ast.Name) and t.id.startswith("case"):
+                conds.append((t.id, ast.unparse(n.value)))
+            if isinstance(t, ast.Tuple):
+                conds.append(("unpack", ast.unparse(t) + " = " + ast.unparse(n.value)))
+        if isinstance(n, ast.If) and any(isinstance(x, ast.Raise) for x in n.body):
+            conds.append(("raise-if", ast.unparse(n.test)))
+    if len(conds) < 5:
+        raise Refusal("cylinder segment conditions not found")
+
+    def isinstance_types(fn, var):
+        for n in ast.walk(fn):
+            if isinstance(n, ast.Call) and isinstance(n.func, ast.Name) and n.func.id == "isinstance" and ast.unparse(n.args[0]) == var:
+                return ast.unparse(n.args[1])
+        raise Refusal(f"no isinstance({var}, ...) in {fn.name}")
+
+    # statement skeleton of the scalar validator: every test and every raise/return in order
+    def skeleton(fn):
+        out = []
+
+        def walk(stmts, depth):
+            for st in stmts:
+                if isinstance(st, ast.Expr) and isinstance(st.value, ast.Constant):
+                    continue  # docstring
+                if isinstance(st, ast.If):
+                    out.append("  " * depth + "if " + ast.unparse(st.test))
+                    walk(st.body, depth + 1)
+                    if st.orelse:
+                        out.append("  " * depth + "else")
+                        walk(st.orelse, depth + 1)
+                elif isinstance(st, ast.Raise):
+                    out.append("  " * depth + "raise " + (ast.unparse(st.exc.func) if isinstance(st.exc, ast.Call) else ast.unparse(st.exc)))
+                elif isinstance(st, ast.Return):
+                    out.append("  " * depth + "return " + (ast.unparse(st.value) if st.value is not None else ""))
+                elif isinstance(st, ast.Assign) and not (isinstance(st.targets[0], ast.Name) and st.targets[0].id.isupper()):
+                    v = st.value
+                    txt = ast.unparse(v.func) + "(...)" if isinstance(v, ast.Call) and len(ast.unparse(v)) > 40 else ast.unparse(v)
+                    out.append("  " * depth + " = ".join(ast.unparse(t) for t in st.targets) + " = " + txt)
+                elif isinstance(st, ast.For):
+                    out.append("  " * depth + "for " + ast.unparse(st.target) + " in " + ast.unparse(st.iter))
+                    walk(st.body, depth + 1)
+                elif isinstance(st, ast.Try):
+                    out.append("  " * depth + "try")
+                    walk(st.body, depth + 1)
+                    for h in st.handlers:
+                        out.append("  " * depth + "except " + (ast.unparse(h.type) if h.type is not None else ""))
+                        walk(h.body, depth + 1)
+                elif isinstance(st, ast.Expr) and isinstance(st.value, ast.Call):
+                    out.append("  " * depth + ast.unparse(st.value.func) + "(...)")
+        walk(fn.body, 0)
+        return out
+
+    stree = ast.parse(open(os.path.join(REPO, "magpylib", "_src", "obj_classes", "class_Sensor.py")).read())
+    scls = next(n for n in stree.body if isinstance(n, ast.ClassDef) and n.name == "Sensor")
+    setters = {n.name: n for n in scls.body if isinstance(n, ast.FunctionDef)
+               and any(isinstance(d, ast.Attribute) and d.attr == "setter" for d in n.decorator_list)}
+    skel = {name: skeleton(fns[name]) for name in ("is_array_like", "make_float_array", "check_array_shape", "check_format_input_scalar",
+                                                   "check_format_input_vector", "check_format_input_vector2", "check_format_input_vertices")}
+    skel["Sensor.pixel"] = skeleton(setters["pixel"])
+    skel["Sensor.handedness"] = skeleton(setters["handedness"])
+    return inner, conds, skel
+
+
 def gen_Attr():
     """which validator, with which constant arguments, every attribute setter of the object classes calls"""
     import ast
@@ -222,29 +331,31 @@ def gen_Attr():
                              and n.func.id.startswith("check_format_input")), None)
                 if call is None:
                     continue
-                kw = {}
-                for k in call.keywords:
-                    try:
-                        kw[k.arg] = ast.literal_eval(k.value)
-                    except Exception:
-                        pass
-                dims = kw.get("dims")
-                dims = list(dims) if isinstance(dims, (tuple, list)) else []
-                sm1 = kw.get("shape_m1", 0)
-                rows.append((cls.name, fn.name, call.func.id, dims, -1 if sm1 == "any" else int(sm1 or 0), int(kw.get("length") or 0),
-                             bool(kw.get("allow_None", False)), bool(kw.get("forbid_negative", False)), bool(kw.get("forbid_negative0", False)),
-                             bool(kw.get("reshape", False))))
+                kw = _literal_kwargs(call)
+                rows.append(_attr_row(cls.name, fn.name, call.func.id, kw))
     if len(rows) < 12:
         raise Refusal(f"only {len(rows)} validated setters found")
     b = lambda x: "true" if x else "false"
-    lst = ",\n".join(f'  ⟨"{c}", "{a}", "{v}", {d}, {m}, {l}, {b(n)}, {b(fn_)}, {b(f0)}, {b(rs)}⟩'
-                      for c, a, v, d, m, l, n, fn_, f0, rs in sorted(rows))
+    fmt = lambda rs_: ",\n".join(f'  ⟨"{c}", "{a}", "{v}", {d}, {m}, {l}, {b(n)}, {b(fn_)}, {b(f0)}, {b(rs)}⟩'
+                                  for c, a, v, d, m, l, n, fn_, f0, rs in rs_)
+    lst = fmt(sorted(rows))
+    inner, conds, skel = _input_checks_facts()
+    q = lambda t: '"' + t.replace("\\", "\\\\").replace('"', '\\"') + '"'
+    conds_l = ",\n".join(f"  ({q(a)}, {q(c)})" for a, c in conds)
+    skel_l = ",\n".join(f"  ({q(k)}, [" + ", ".join(q(x) for x in v) + "])" for k, v in skel.items())
     body = ("namespace MagpyVerif.Gen.Attr\n\n"
             "structure Row where\n  cls : String\n  attr : String\n  validator : String\n  dims : List Nat\n"
             "  /-- required size of the last axis; -1 = any; 0 = not given -/\n  shapeM1 : Int\n  length : Nat\n"
             "  allowNone : Bool\n  forbidNegative : Bool\n  forbidNegative0 : Bool\n  reshape : Bool\n  deriving Repr, DecidableEq\n\n"
-            f"def table : List Row := [\n{lst}]\n\nend MagpyVerif.Gen.Attr\n")
-    write("Attr", body, "attribute setters of magpylib/_src/obj_classes/*.py (AST)")
+            f"def table : List Row := [\n{lst}]\n\n"
+            "/-- calls of check_format_input_vector inside the composite validators of input_checks.py (attr = calling function) -/\n"
+            f"def inner : List Row := [\n{fmt(inner)}]\n\n"
+            "/-- check_format_input_cylinder_segment: the unpacking, the case conditions and the raise condition, as source text -/\n"
+            f"def segConds : List (String × String) := [\n{conds_l}]\n\n"
+            "/-- control-flow skeleton (tests, assignments, raises, returns in source order) of the validators modelled by hand in Model/Validators.lean -/\n"
+            f"def skeleton : List (String × List String) := [\n{skel_l}]\n\n"
+            "end MagpyVerif.Gen.Attr\n")
+    write("Attr", body, "attribute setters of magpylib/_src/obj_classes/*.py and validators of magpylib/_src/input_checks.py (AST)")
 
 
 def gen_Defaults():
